@@ -11,7 +11,7 @@ PID = "C12"
 LEVEL = "exploration"
 RULE = (
     "Two Hypothesis generators over finish-to-start networks. (standalone) DAGs of 1-10 tasks (any shape, several "
-    "heads/tails, zero work, shuffled task_list order): workflow.initialize(), then a generated history of 1-6 "
+    "heads/tails, zero work, shuffled task_list order, some tasks being sub-project tasks with a per-step rate != 1): workflow.initialize(), then a generated history of 1-6 "
     "rounds {advance t by 0-3, reduce some remaining amounts (never below 0), update_PERT_data(t)}; after "
     "initialize and after every round est/eft/lst/lft/critical_path_length are compared (1e-9) with a reference "
     "CPM (topological longest path forward, min over successors backward), slack >= 0 and some head-to-tail path "
@@ -111,7 +111,14 @@ def _standalone(draw, max_n):
             max_size=6,
         )
     )
-    return {"kind": "standalone", "work": work, "edges": [list(e) for e in edges], "order": order, "hist": [[dt, fr] for dt, fr in hist]}
+    case = {"kind": "standalone", "work": work, "edges": [list(e) for e in edges], "order": order, "hist": [[dt, fr] for dt, fr in hist]}
+    if draw(st.integers(0, 3)) == 0:
+        # some tasks are sub-project tasks whose work proceeds by a rate != 1 per step: PERT is stated in remaining
+        # work for every kind of task
+        k = draw(st.integers(1, min(3, n)))
+        idx = draw(st.lists(st.integers(0, n - 1), min_size=k, max_size=k, unique=True))
+        case["sub"] = {str(i): draw(st.sampled_from([0.25, 0.5, 2.0, 4.0])) for i in idx}
+    return case
 
 
 DEC = [0.1, 0.2, 0.3, 0.6, 0.7, 0.9, 1.1, 1.3, 2.3]
@@ -148,7 +155,13 @@ CFG_SIM = gen.Cfg(warm=4, due=True, kinds=[0], facilities=False, max_workers=3, 
 
 @st.composite
 def _sim(draw, cfg):
-    return {"kind": "sim", "spec": draw(gen.model_spec(cfg)), "pre_backward": draw(st.sampled_from([None, None, False, True]))}
+    spec = draw(gen.model_spec(cfg))
+    for t in spec["tasks"]:
+        if t["comp"] is None and not t["nf"] and draw(st.integers(0, 5)) == 0:
+            t["auto"] = True
+            t["rate"] = draw(st.sampled_from([0.25, 0.5, 1.0, 2.0]))
+            t["sub"] = {"unit_s": 60}
+    return {"kind": "sim", "spec": spec, "pre_backward": draw(st.sampled_from([None, None, False, True]))}
 
 
 def strategy(tier):
@@ -169,7 +182,14 @@ def check(case):
     if case["kind"] == "standalone":
         n = len(case["work"])
         edges = [tuple(e) for e in case["edges"]]
-        tasks = [S.BaseTask("T%d" % i, ID="t%d" % i, default_work_amount=case["work"][i]) for i in range(n)]
+        sub = case.get("sub") or {}
+        tasks = [
+            S.BaseSubProjectTask("T%d" % i, ID="t%d" % i, default_work_amount=case["work"][i], work_amount_progress_of_unit_step_time=sub[str(i)])
+            if str(i) in sub
+            else S.BaseTask("T%d" % i, ID="t%d" % i, default_work_amount=case["work"][i])
+            for i in range(n)
+        ]
+        res.cls("sub_project_task", bool(sub))
         for a, b in edges:
             tasks[b].append_input_task(tasks[a])
         wf = S.BaseWorkflow([tasks[i] for i in case["order"]])
